@@ -21,11 +21,17 @@ inductive Val where
 def be16 (n : Nat) : Bytes := [n / 256 % 256, n % 256]
 def be32 (n : Nat) : Bytes := [n / 16777216 % 256, n / 65536 % 256, n / 256 % 256, n % 256]
 
+def be64 (n : Nat) : Bytes := be32 (n / 4294967296) ++ be32 (n % 4294967296)
+
 def rd16 : Bytes → Option (Nat × Bytes)
   | a :: b :: r => some (a * 256 + b, r)
   | _ => none
 def rd32 : Bytes → Option (Nat × Bytes)
   | a :: b :: c :: d :: r => some (a * 16777216 + b * 65536 + c * 256 + d, r)
+  | _ => none
+def rd64 : Bytes → Option (Nat × Bytes)
+  | a :: b :: c :: d :: e :: f :: g :: h :: r =>
+    some ((a * 16777216 + b * 65536 + c * 256 + d) * 4294967296 + (e * 16777216 + f * 65536 + g * 256 + h), r)
   | _ => none
 def rd8 : Bytes → Option (Nat × Bytes)
   | a :: r => some (a, r)
@@ -54,6 +60,9 @@ def decode : Nat → Bytes → Option (Val × Bytes)
     else if c = 204 then (rd8 r).map (fun (n, r') => (.uint n, r'))
     else if c = 205 then (rd16 r).map (fun (n, r') => (.uint n, r'))
     else if c = 206 then (rd32 r).map (fun (n, r') => (.uint n, r'))
+    else if c = 207 then (rd64 r).map (fun (n, r') => (.uint n, r'))    -- uint 64
+    else if c = 211 then                                                   -- int 64 (non-negative values only)
+      (rd64 r).bind (fun (n, r') => if n < 9223372036854775808 then some (.uint n, r') else none)
     else if c = 215 then                                                   -- fixext 8
       (rd8 r).bind (fun (ty, r1) => (takeN 8 r1).map (fun (s, r') => (.ext ty s, r')))
     else if c = 217 then (rd8 r).bind (fun (n, r1) => (takeN n r1).map (fun (s, r') => (.str s, r')))
@@ -63,6 +72,10 @@ def decode : Nat → Bytes → Option (Val × Bytes)
       match depth with
       | 0 => none
       | d + 1 => (rd16 r).bind (fun (n, r1) => (decodeSeq d n r1).map (fun (l, r') => (.arr l, r')))
+    else if c = 221 then                                                   -- array 32
+      match depth with
+      | 0 => none
+      | d + 1 => (rd32 r).bind (fun (n, r1) => (decodeSeq d n r1).map (fun (l, r') => (.arr l, r')))
     else if c = 222 then                                                   -- map 16
       match depth with
       | 0 => none
